@@ -61,6 +61,47 @@ CLAIMED.update({
         design='§5 C04'),
 })
 
+CLAIMED.update({
+    'C03': dict(
+        text='Theorem frame_data_roundtrip: for every frame, row list (slots = element size + bit patterns), window '
+             'and input chunk size >= 1 the model emits exactly one record per row of the window, numbered 1..N in '
+             'order, each referencing the frame and decoding under the declared layout to the row\'s bit patterns '
+             '(NaN payloads, signed zero, extremes are bit patterns, hence covered). Tie: tapped IFLR bodies vs '
+             'frameDataBody on bit patterns extracted independently from the arrays (all byte orders / layouts); '
+             'oracle decodes the real file with the layout declared by its own CHANNEL objects.',
+        note='PARTIAL: numpy element access for any byte order/stride/layout/read-only flag and the dtype cast are '
+             'outside the model; only the correspondence covers them.',
+        technique='Lean 4 proof (per-row round-trip + chunking lemma) + differential correspondence',
+        design='§5 C03'),
+    'C05': dict(
+        text='Theorem decode_attr_fidelity: in every set body the model writes, each object is found under its set type '
+             'and identity, unset attributes are absent, and each assigned attribute has its count, units, representation '
+             'code and values, the values reading back with the strict decoders as the canonical value of the attribute '
+             'state (numbers exact, text exact, DTIME = UTC fields + rounded ms, references = identity). Tie: tapped '
+             'EFLR bodies vs setBody(description of the live objects) + whole-file oracle comparing the Lean reader\'s '
+             'dump with an expectation computed from the API arguments and the pinned schema (attrs_eq, enums_eq).',
+        note='PARTIAL: the converters (user input -> attribute state: numeric/date parsing, enum members, list wrapping) '
+             'and write-time defaults are Python dynamic-typing logic outside the Lean model; they are covered by the '
+             'whole-file oracle only. strptime/astimezone are trusted (TZ=UTC in the harness).',
+        technique='Lean 4 proof (parser round-trip + typed value decoding) + differential correspondence + spec oracle',
+        design='§5 C05'),
+    'C08': dict(
+        text='Theorems descriptor_layout (code of the (cast) dtype, DIMENSION = per-row shape, ELEMENT-LIMIT bounds it), '
+             'record_length (|reference| + |frame number| + sum size x count) and frame_data_roundtrip; dtype table '
+             'obligation dtype_table ties the code table to the live package. Oracle: decoded CHANNEL descriptors vs '
+             'the data given, and every record decoded under that layout.',
+        note='Sticky cast_dtype across writes and inconsistent user dimension/element-limit are covered by C14/C12 streams.',
+        technique='Lean 4 proof (descriptor decision + length formula) + differential correspondence',
+        design='§5 C08'),
+    'C16': dict(
+        text='Theorems noformat_roundtrip / noformat_length / noformat_order_preserved: the record body is the reference '
+             'plus exactly the payload for every length; order and content survive framing (C02). Tie: tapped type-1 '
+             'bodies vs noFormatBody; oracle: Lean decoder on the real file vs the payloads added.',
+        note='',
+        technique='Lean 4 proof (round-trip) + differential correspondence',
+        design='§5 C16'),
+})
+
 PENDING_REASON = 'check not built yet in this revision (model layer under construction); see DESIGN.md §12 build order'
 
 
